@@ -25,6 +25,9 @@ import Bng.Model.AcctSpec
     while the call is parked in front of that marker (reported as inj=<marker>:<res>|<ord>|<ab>).
     `@17:stop:<sid>:<cause>:<ans>` after interim = a complete StopSession call executed while the interim update
     (its own goroutine in production) is parked in front of its send (reported as inj=17:ok|-|- / notfound|-|-).
+    `@<1|2>:stop:<sid>:..` after `start <sid>` and `@<3..6>:stop:<sid>:..` after `stop <sid>` = a StopSession of the
+    SAME session overlapping that call: the model has one API program counter (a call attempted while another is
+    in progress has no effect), the code refuses it (`refused`; `notfound` once the session is deleted).
     `!k~` = crash in the middle of the file write of the k-th step (crashed@<marker>~).
 
   The iteration orders of Go maps and of the drain goroutines (`ord=`, `q=`) are taken from the
@@ -134,8 +137,10 @@ def splitInject (toks : List String) : Option (List String × List Inj) :=
           | _, _ => none
         | [m, "stop", sid, c, a] =>
           match m.toNat?, parseTagged 's' sid, c.toNat?, parseAns a with
-          | some 17, some sid, some c, some a =>
-            go rest ({ mark := 17, retry := false, ans := a, stop := some (sid, c) } :: acc)
+          | some m, some sid, some c, some a =>
+            if m = 17 ∨ (1 ≤ m ∧ m ≤ 6) then
+              go rest ({ mark := m, retry := false, ans := a, stop := some (sid, c) } :: acc)
+            else none
           | _, _, _, _ => none
         | _ => none
       else some (rev.reverse, acc)
@@ -267,7 +272,12 @@ def runInj (σ : Acct.State) (inj : Inj) : Acct.State × Inj :=
   match inj.stop with
   | some (sid, c) =>
     let σ1 := Acct.step σ (.stop sid c)
-    if σ1.res == .dead || σ1.res == .busy then (σ1, { inj with done := true, obs := "dead|-|-" })
+    if σ1.res == .dead then (σ1, { inj with done := true, obs := "dead|-|-" })
+    else if σ1.res == .busy then
+      -- an API call (of the same session: see okStopInj) is in progress: the model's `busy` = the call has no
+      -- effect; the code refuses it while the session is registered, and does not find it once it is deleted
+      let obs := if (AMap.lookup σ.vol.sessions sid).isSome then "refused|-|-" else "notfound|-|-"
+      (σ, { inj with done := true, obs := obs })
     else
       let σ2 := afinish σ1 inj.ans
       (σ2, { inj with done := true, obs := s!"{resName σ2.res}|-|-" })
@@ -308,6 +318,15 @@ partial def finish (σ : Acct.State) (answers : List Ans) (crashAt : Nat) (torn 
       else
         let (a, rest) := nextAns f answers
         finish (Acct.step σ (.tick a)) rest (crashAt - 1) torn injs
+
+/-- a StopSession may be nested in a StartSession (markers 1, 2) or StopSession (markers 3-6) of the SAME session
+    only (overlapping API calls on different sessions are not modelled); in an interim update (17) freely -/
+def okStopInj (op : String) (s : Nat) (injs : List Inj) : Bool :=
+  injs.all fun i =>
+    match i.stop with
+    | none => true
+    | some (sid, _) =>
+      i.mark = 17 || (sid = s && ((op == "start" && i.mark ≤ 2) || (op == "stop" && i.mark ≥ 3)))
 
 def showInj (injs : List Inj) : String :=
   String.join (injs.map fun i => s!" inj={i.mark}:{if i.done then i.obs else "-"}")
@@ -436,6 +455,7 @@ def step (st : St) (toks0 : List String) (impl : String) : St × LineResult :=
       | ["start", s, i, a] =>
         match parseTagged 's' s, parseTagged 'i' i, parseAns a with
         | some s, some i, some ans =>
+          if !okStopInj "start" s injs then bad else
           let (σ', obs) := runCall σ (.start s i) .plain ans crashAt torn injs
           let called := !(impl.startsWith "exists") && !(impl.startsWith "dead")
           finishLine σ' obs (if called then [.startCalled s i] else [])
@@ -444,12 +464,14 @@ def step (st : St) (toks0 : List String) (impl : String) : St × LineResult :=
       | ["interim", s, a] =>
         match parseTagged 's' s, parseAns a with
         | some s, some ans =>
+          if !okStopInj "interim" s injs then bad else
           let (σ', obs) := runInterim σ s ans crashAt torn injs
           finishLine σ' obs [] []
         | _, _ => bad
       | ["stop", s, c, a] =>
         match parseTagged 's' s, c.toNat?, parseAns a with
         | some s, some c, some ans =>
+          if !okStopInj "stop" s injs then bad else
           let (σ', obs) := runCall σ (.stop s c) .plain ans crashAt torn injs
           finishLine σ' obs [] []
         | _, _, _ => bad
@@ -472,6 +494,7 @@ def step (st : St) (toks0 : List String) (impl : String) : St × LineResult :=
         match parseAns a with
         | some ans =>
           let order := match field impl "ord" with | some q => parseList 's' q | none => []
+          if !okStopInj "shutdown" 0 injs then bad else
           let (σ', obs) := runCall σ (.shutdown order) .drain ans crashAt torn injs
           finishLine σ' obs [] []
         | none => bad
